@@ -277,6 +277,10 @@ class Endpoint(object):
             return [_reply(data, RC_ARG)]
         chip_xy = self.eth if (dx, dy) == (255, 255) else (dx, dy)
         chip = m.chips.get(chip_xy)
+        if chip is not None and getattr(chip, "no_reply_code", None):
+            # the Ethernet chip answers on behalf of a chip that does not
+            # acknowledge point-to-point packets (RC_P2P_NOREPLY etc.)
+            return [_reply(data, chip.no_reply_code)]
         if chip is None or chip.silent:
             if m.route_error_for_absent and chip is None:
                 return [_reply(data, RC_ROUTE)]
